@@ -155,8 +155,12 @@ impl<W: Write> Encoder<W> {
     }
 
     /// Encode a CBOR simple value.
+    ///
+    /// Simple values 0 to 23 (which include `false`, `true`, `null` and
+    /// `undefined`, i.e. 20 to 23) are encoded in a single byte, larger
+    /// values in two bytes.
     pub fn simple(&mut self, x: u8) -> Result<&mut Self, Error<W::Error>> {
-        if x < 0x14 {
+        if x < 0x18 {
             self.put(&[SIMPLE | x])
         } else {
             self.put(&[SIMPLE | 24, x])
